@@ -105,7 +105,7 @@ def gen_cases(rng, n, tier):
             vals = [rng.choice([None, 1]), rng.choice([1, 2])]
             for r in rows:
                 r['dat'] = [rng.choice(vals), 0]
-        out.append(dict(cfg=cfg, rows=rows, yield_per=rng.choice([None, None, 1, 2, 3])))
+        out.append(dict(cfg=cfg, rows=rows, yield_per=rng.choice([None, None, 1, 2, 3]), pending=rng.choice([0, 0, 1, 2, 3])))
     # joined-table inheritance, vacuum called with the base class: versions of a subclass entity often differ only in
     # the column of the child table
     for i in range(max(8, n // 6)):
@@ -134,19 +134,40 @@ def corpus():
     jn = [dict(key=[1], tx=t, end=None, op=1, dat=[5, v]) for t, v in ((1, 1), (2, 2), (3, 1), (4, 1))] + \
          [dict(key=[2], tx=t, end=None, op=1, dat=[v, None]) for t, v in ((1, 1), (3, 1), (5, 2))]
     return [dict(cfg=c, rows=aba), dict(cfg=cc, rows=comp), dict(cfg=JOINED[0], rows=jn), dict(cfg=c, rows=aba, yield_per=2),
-            dict(cfg=c, rows=aba, yield_per=1)]
+            dict(cfg=c, rows=aba, yield_per=1), dict(cfg=c, rows=aba, pending=1), dict(cfg=c, rows=aba, pending=2),
+            dict(cfg=c, rows=aba, pending=3)]
 
 
 def _observe(env, cfg, rows, case=None):
     case = case or {}
     from sqlalchemy_continuum import vacuum
     joined = cfg.get('shape') == 'joined'
-    load_joined(env, cfg, rows) if joined else T.load_rows(env, cfg, rows)
+    # some of the version rows are not in the table yet: the application adds them through the session and calls
+    # vacuum before flushing (back-filled rows) - an autoflush session makes them visible to vacuum's scan
+    npend = 0 if joined else (case.get('pending') or 0)
+    stored, late = (rows, []) if not npend else ([r for i, r in enumerate(rows) if i % 3 != npend % 3],
+                                                  [r for i, r in enumerate(rows) if i % 3 == npend % 3])
+    load_joined(env, cfg, rows) if joined else T.load_rows(env, cfg, stored)
     txc, endc = T.colnames(cfg)
     kc = T.keycols(cfg)
     # an ordinary autoflush session; the window size of the scan is part of the input
     s = env.session(autoflush=True)
     try:
+        if late:
+            V = env.version_class(env.Article)
+            have = {tuple(r['key']) for r in stored}
+            for r in late:
+                if tuple(r['key']) not in have:
+                    # its live parent row was not created by the loader
+                    env.connection.execute(env.Article.__table__.insert(), [dict(zip(kc, r['key']))])
+                    have.add(tuple(r['key']))
+                d = dict(zip(kc, r['key']))
+                d[txc] = r['tx']
+                if cfg['strategy'] == 'validity':
+                    d[endc] = r['end']
+                d['operation_type'] = r['op']
+                d['a'], d['b'] = r['dat']
+                s.add(V(**d))
         yp = case.get('yield_per')
         vacuum(s, env.Article, **({'yield_per': yp} if yp else {}))
         V = env.version_class(env.Article)
@@ -173,14 +194,14 @@ def _worker(chunk):
     out = []
     with E.Env(options=T.cfg_options(cfg), build=build_joined if cfg.get('shape') == 'joined' else T.build_article(cfg)) as env:
         for idx, rows, yp in items:
-            out.append((idx, _observe(env, cfg, rows, dict(yield_per=yp))))
+            out.append((idx, _observe(env, cfg, rows, dict(yield_per=yp[0], pending=yp[1]))))
     return out
 
 
 def run_impl(cases):
     groups = {}
     for i, c in enumerate(cases):
-        groups.setdefault(json.dumps(c['cfg'], sort_keys=True), []).append((i, c['rows'], c.get('yield_per')))
+        groups.setdefault(json.dumps(c['cfg'], sort_keys=True), []).append((i, c['rows'], [c.get('yield_per'), c.get('pending')]))
     chunks = []
     for k, items in groups.items():
         step = max(1, (len(items) + 1) // 2)
@@ -219,9 +240,10 @@ def features(case, obs):
 def shrink(case):
     out = []
     for rows in T.shrink_rows(case['rows']):
-        out.append(dict(cfg=case['cfg'], rows=rows, yield_per=case.get('yield_per')))
+        out.append(dict(cfg=case['cfg'], rows=rows, yield_per=case.get('yield_per'), pending=case.get('pending')))
     return out
 
 
 def describe(case, obs):
-    return dict(cfg=case['cfg'], yield_per=case.get('yield_per'), version_table_rows=case['rows'], observed=obs)
+    return dict(cfg=case['cfg'], yield_per=case.get('yield_per'), rows_added_through_the_session_and_unflushed=case.get('pending'),
+                version_table_rows=case['rows'], observed=obs)
